@@ -16,10 +16,12 @@ UNIT_MAP = {
     'cao_lang_table': ['cao_lang_table'],
     'object_laws': ['object_laws'],
     'frames': ['closure_capture'],
-    'gc_roots': ['gc_roots'],
+    'gc_roots': ['gc_roots', 'callback_mutation'],
     'host_values': ['gc_roots'],
     'stdlib_natives': ['native_keys'],
+    'instr_rooting': ['operand_rooting'],
     'stdlib_reentry': ['callback_mutation'],
+    'stdlib_contracts': ['stdlib_model'],
     'names': ['name_resolution'],
     'error_trace': ['error_trace'],
     'emission': ['decode_walk'],
